@@ -81,3 +81,33 @@ def labels_to_colors_hls(labels: Seq(Str, "list"), min_count: OneOf(NoneType, In
         and not rare(labels, labels[i], min_count) and not rare(labels, labels[j], min_count),
         not same_value(result[i], result[j]))), name="post[distinct labels, distinct colours]")
     canary(forall(TInt, lambda i: implies(0 <= i and i < len(labels), is_black(result[i]))), name="everything black")
+
+
+# ---- density_scatter, discrete mode: each distinct (x, y) point once, coloured by its multiplicity (term level)
+
+@predicate
+def distinct_points(x, y):
+    return np.unique(np.array(list(zip(np.asarray(x), np.asarray(y)))), return_counts=True, axis=0)
+
+
+@predicate
+def draw_order(x, y, sort):
+    # densest points last when sort is set
+    return distinct_points(x, y)[1].argsort() if sort else None
+
+
+@contract("pyrepseq.plotting.density_scatter", props=["C19"], scope="density_scatter_calls")
+def density_scatter(x: Obj("ndarray"), y: Obj("ndarray"), ax: OneOf(NoneType, Obj("Axes")), discrete: Const(True),
+                    sort: OneOf(Const(True), Const(False)), cbar: Const(False), kwargs: KwargsT()):
+    raises(None)
+    ensures(times_drawn(the_axes(ax), "scatter") == 1, name="post[one scatter call]")
+    ensures(same_value(drawn(the_axes(ax), "scatter")[0],
+                       distinct_points(x, y)[0][:, 0][draw_order(x, y, sort)] if sort else distinct_points(x, y)[0][:, 0]),
+            name="post[x: first coordinate of each distinct point, once]")
+    ensures(same_value(drawn(the_axes(ax), "scatter")[1],
+                       distinct_points(x, y)[0][:, 1][draw_order(x, y, sort)] if sort else distinct_points(x, y)[0][:, 1]),
+            name="post[y: second coordinate of each distinct point]")
+    ensures(same_value(drawn_kw(the_axes(ax), "scatter", "c"),
+                       distinct_points(x, y)[1][draw_order(x, y, sort)] if sort else distinct_points(x, y)[1]),
+            name="post[colour: the multiplicity of the point]")
+    ensures(same_value(result, the_axes(ax)), name="post[returns the axes]")
